@@ -1119,15 +1119,9 @@ func c01Excluded(tc l4Case, f *syntax.File, sh *shape) string {
 		// parser treats the here-document as buried and never reads the body (bash does).
 		return "C01-single-heredoc-buried"
 	}
-	// C01-single-heredoc-in-heredoc: SingleLine prints a command substitution inside a
+	// (C01-single-heredoc-in-heredoc — SingleLine prints a command substitution inside a
 	// here-document body on one line, so a here-document inside it is flushed after the outer
-	// delimiter.
-	if o.Single && sh.any(func(n syntax.Node) bool {
-		r, ok := n.(*syntax.Redirect)
-		return ok && r.Hdoc != nil && hasHeredoc(r.Hdoc)
-	}) {
-		return "C01-single-heredoc-in-heredoc"
-	}
+	// delimiter — needs SingleLine ∧ here-document ∧ CmdSubst and lies inside the region above.)
 	// C01-quoted-heredoc-backslash-newline: when the body of a here-document starts more than one
 	// line below the printer's current line (escaped newline after the operator that the printer
 	// drops; other bodies in between when a node is printed on its own), wordParts(quoted=true)
@@ -1249,11 +1243,23 @@ func c01Excluded(tc l4Case, f *syntax.File, sh *shape) string {
 	// statements, holds a function under FunctionNextLine, or — Minify — rightParen asks for one
 	// whenever a here-document is pending): the pending body is flushed inside the substitution.
 	if hasHeredoc(f) && !o.Single && sh.any(func(n syntax.Node) bool {
-		r, ok := n.(*syntax.Redirect)
-		if !ok || (r.Op != syntax.Hdoc && r.Op != syntax.DashHdoc) {
+		owner, ok := n.(*syntax.Stmt)
+		if !ok {
+			return false
+		}
+		var r *syntax.Redirect
+		for _, x := range owner.Redirs {
+			if x.Op == syntax.Hdoc || x.Op == syntax.DashHdoc {
+				r = x
+			}
+		}
+		if r == nil {
 			return false
 		}
 		return sh.any(func(m syntax.Node) bool {
+			if nodeWithin(owner, m) {
+				return false // the printer moves the here-document behind the words of its own command
+			}
 			var left, right syntax.Pos
 			var nst int
 			switch c := m.(type) {
@@ -1384,3 +1390,17 @@ func c01Excluded(tc l4Case, f *syntax.File, sh *shape) string {
 	return ""
 }
 
+
+// nodeWithin reports whether m is root or a descendant of root.
+func nodeWithin(root, m syntax.Node) bool {
+	found := false
+	safely(func() {
+		syntax.Walk(root, func(x syntax.Node) bool {
+			if x == m {
+				found = true
+			}
+			return !found
+		})
+	})
+	return found
+}
